@@ -130,6 +130,15 @@ def confirm(repo, verif, prop, witness):
     """run the real function on a witness; -> {contradicts, real, spec} or None"""
     if not witness or "op" not in witness:
         return None
+    if witness["op"] == "rerun_e2e":
+        # the failing case is a scenario of a deterministic end-to-end check: run the real binaries on it again
+        from . import csvcheck
+        c = csvcheck.CHECKS[witness["check"]](repo, verif, "quick")
+        return {"contradicts": c["status"] == "failed", "real": c.get("reason", c["status"]), "spec": "see check " + witness["check"]}
+    if witness["op"] == "rerun_native":
+        r = run(repo, verif, prop, [witness["check"]], 0, "quick")
+        c = (r.get("checks") or [{}])[0]
+        return {"contradicts": c.get("status") == "failed", "real": c.get("reason", c.get("status")), "spec": "see check " + witness["check"]}
     exe, err = _build(repo, verif, physics=witness.get("op") in PHYSICS_OPS)
     if exe is None:
         return {"error": err}
